@@ -50,7 +50,7 @@ def eq_key(m):
 
 
 def judge_space(kind, shape, types, colours, repname, devs):
-    objs = P.objects_of(types, colours)
+    objs = P.objects_of(types, colours, box_contents=True)
     if kind == 'state':
         sp = P.state_space(shape, types, colours)
         rep = P.make_state_representation(repname, sp)
@@ -98,6 +98,7 @@ def judge_space(kind, shape, types, colours, repname, devs):
     # (ii)+(iii) over members
     base_arr = None
     buckets = {}
+    bucket_obj = {}
     eqs = {}
     for m in members:
         n += 1
@@ -123,6 +124,11 @@ def judge_space(kind, shape, types, colours, repname, devs):
         ek = eq_key(m)
         if img in buckets and buckets[img] != ek:
             return n, f'two different members share one representation: {buckets[img][1:]} vs {ek[1:]}', m
+        # the library's own == decides "equal": members sharing a representation must be ==, and vice versa
+        if img in bucket_obj and not (bucket_obj[img] == obj):
+            return n, 'two members that the library does not consider equal share one representation', m
+        if img not in bucket_obj:
+            bucket_obj[img] = obj
         if ek in eqs and eqs[ek] != img:
             return n, 'two equal members have different representations', m
         if ek not in eqs:
@@ -190,11 +196,13 @@ def spaces(tier):
         subsets += [c for c in itertools.combinations(names, 3)] + [tuple(names), tuple(t for t in names if t != 'Box')]
     else:
         subsets += [tuple(names), tuple(t for t in names if t != 'Box')]
+    subsets += [('Wall', 'Floor', 'Door', 'Key', 'Hidden'), ('NoneGridObject', 'Floor', 'Exit'), ('Floor', 'Wall', 'Floor', 'Key'),
+                ('Hidden', 'NoneGridObject', 'Floor', 'Door')]
     for ts in subsets:
         for cs in colour_sets:
             big = len(ts) > 5
             for sh in ((2, 2), (2, 3), (3, 3)):
-                if 'Box' not in ts:
+                if 'Box' not in ts and 'Hidden' not in ts:
                     devs = 2 if (sh == (2, 3) and not big) or (tier != 'quick' and not big) else 1
                     out.append(('state', sh, ts, cs, devs))
             for sh in ((1, 1), (2, 3), (3, 3), (3, 5)):
